@@ -3,6 +3,7 @@ package props
 import (
 	"fmt"
 	"go/token"
+	"go/types"
 	"path/filepath"
 	"sort"
 	"strings"
@@ -130,6 +131,30 @@ func cliRun(prog *load.Program, env cliEnv, choices *interp.Choices) (*cliPath, 
 	m := interp.New(prog)
 	m.Choices = choices
 	m.Indexed = map[token.Pos]bool{}
+	// path arithmetic, string helpers and the predicates of a file mode have no effects: without a model
+	// their results are unknown (what package main decides on them is explored both ways)
+	m.PureUnknown = func(fn *types.Func) bool {
+		if fn.Pkg() == nil {
+			return false
+		}
+		switch fn.Pkg().Path() {
+		case "path/filepath":
+			switch fn.Name() {
+			case "Split", "Dir", "Base", "Ext", "Clean", "Join", "IsAbs", "Rel", "ToSlash", "FromSlash", "VolumeName", "IsLocal", "Match":
+				return true
+			}
+		case "path", "strings", "strconv", "unicode", "unicode/utf8", "bytes":
+			return true
+		case "io/fs":
+			sig, _ := fn.Type().(*types.Signature)
+			if sig != nil && sig.Recv() != nil {
+				if n, ok := types.Unalias(sig.Recv().Type()).(*types.Named); ok && n.Obj().Name() == "FileMode" {
+					return true
+				}
+			}
+		}
+		return false
+	}
 	p := &cliPath{Env: env, NonNil: map[int]bool{}, NotExist: map[int]bool{}, Bound: map[string]bool{}, FlagDecided: map[string]bool{}}
 	type flagRec struct {
 		get    func() interp.Value
